@@ -171,6 +171,29 @@ fn main() {
                         "n/a".to_string()
                     }
                 }
+                "map" => {
+                    // toml::Table as an ordered map: `map ins <k> <n>;rem <k>;…` -> iteration order at the end
+                    let mut t = toml::Table::new();
+                    let mut rets = vec![];
+                    for op in l.trim_end()[4..].split(';') {
+                        let q: Vec<&str> = op.split(' ').collect();
+                        match q[0] {
+                            "ins" => rets.push(match t.insert(q[1].to_string(), toml::Value::Integer(q[2].parse().unwrap())) {
+                                Some(toml::Value::Integer(o)) => format!("v{o}"),
+                                Some(_) => "v?".into(),
+                                None => "none".into(),
+                            }),
+                            "rem" => rets.push(match t.remove(q[1]) {
+                                Some(toml::Value::Integer(o)) => format!("v{o}"),
+                                Some(_) => "v?".into(),
+                                None => "none".into(),
+                            }),
+                            _ => rets.push("bad".into()),
+                        }
+                    }
+                    let it: Vec<String> = t.iter().map(|(k, v)| format!("{k}={}", v.as_integer().unwrap_or(-1))).collect();
+                    format!("map rets={} iter={}", rets.join(","), it.join(","))
+                }
                 "build" => {
                     #[cfg(feature = "display")]
                     {
